@@ -128,7 +128,9 @@ func (c *Consistent) firstKey() getty.Session {
 
 func newConsistenceInstance(sessions *sync.Map) *Consistent {
 	once.Do(func() {
-		consistentInstance = &Consistent{
+		// the instance is published only when its circle is complete: concurrent first callers wait in
+		// once.Do and never see a half-built one
+		instance := &Consistent{
 			hashCircle: make(map[int64]getty.Session),
 		}
 		// construct hash circle
@@ -136,9 +138,9 @@ func newConsistenceInstance(sessions *sync.Map) *Consistent {
 			session := key.(getty.Session)
 			for i := 0; i < defaultVirtualNodeNumber; i++ {
 				if !session.IsClosed() {
-					position := consistentInstance.hash(fmt.Sprintf("%s%d", session.RemoteAddr(), i))
-					consistentInstance.put(position, session)
-					consistentInstance.sortedHashNodes = append(consistentInstance.sortedHashNodes, position)
+					position := instance.hash(fmt.Sprintf("%s%d", session.RemoteAddr(), i))
+					instance.put(position, session)
+					instance.sortedHashNodes = append(instance.sortedHashNodes, position)
 				} else {
 					sessions.Delete(key)
 				}
@@ -147,19 +149,16 @@ func newConsistenceInstance(sessions *sync.Map) *Consistent {
 		})
 
 		// virtual node sort
-		sort.Slice(consistentInstance.sortedHashNodes, func(i, j int) bool {
-			return consistentInstance.sortedHashNodes[i] < consistentInstance.sortedHashNodes[j]
+		sort.Slice(instance.sortedHashNodes, func(i, j int) bool {
+			return instance.sortedHashNodes[i] < instance.sortedHashNodes[j]
 		})
+		consistentInstance = instance
 	})
 
 	return consistentInstance
 }
 
 func ConsistentHashLoadBalance(sessions *sync.Map, xid string) getty.Session {
-	if consistentInstance == nil {
-		newConsistenceInstance(sessions)
-	}
-
 	// pick a node
-	return consistentInstance.pick(sessions, xid)
+	return newConsistenceInstance(sessions).pick(sessions, xid)
 }
